@@ -76,7 +76,7 @@ impl Check for HistoryCheck {
     }
     fn budget(&self, tier: Tier) -> u64 {
         match tier {
-            Tier::Quick => 40_000,
+            Tier::Quick => 70_000,
             Tier::Thorough => 300_000,
         }
     }
